@@ -138,7 +138,8 @@ Inductive step :=
 | TExists (id : N) (obs : nat)                          (* 0 false, 1 true, 2 error / panic *)
 | TSearch (ordered : bool) (f : filters) (o : sobs)     (* ordered = false: through the cosmosdb fake, which ignores ORDER BY *)
 | TList (ordered : bool) (limit : Z) (o : sobs)
-| TQuery (f : filters) (q : query) (b : binds).         (* cosmosdb: parsed text + parameters of buildSearchQuery *)
+| TQuery (f : filters) (q : query) (b : binds)          (* cosmosdb: parsed text + parameters of buildSearchQuery *)
+| TListQuery (limit : Z) (q : query) (b : binds).       (* cosmosdb: parsed text + parameters List sends (hook VerifListQuery) *)
 
 Record case := { c_backend : backend; c_swarm : N; c_steps : list step }.
 
@@ -172,7 +173,8 @@ Definition agrees_search (ordered : bool) (m o : sobs) : bool :=
    (Bool.eqb (o_err m) (o_err o) && Bool.eqb (o_closed m) (o_closed o)
     && search_items_ok ordered (o_items m) (o_items o))).
 
-(* what: 1 op result, 2 search item after op, 3 exists, 4 search, 5 list, 6 query text, 7 query evaluation *)
+(* what: 1 op result, 2 search item after op, 3 exists, 4 search, 5 list, 6 query text, 7 query evaluation,
+         8 List query text, 9 List query evaluation *)
 Definition fail (kind i what : nat) : list nat := [kind; i; what].
 
 Definition step_check (be : backend) (w : N) (i : nat) (s : cstate) (t : step) : cstate * list nat :=
@@ -219,6 +221,14 @@ Definition step_check (be : backend) (w : N) (i : nat) (s : cstate) (t : step) :
                then (if search_items_ok true (expected_search f (st_sp s)) (map result_of_row rows) then [] else fail 2 i 7)
                else []
            | None => fail 2 i 7
+           end))
+  | TListQuery limit q b =>
+      let (mq, mb) := cs_list_query w limit in
+      (s, (if query_eqb q mq && binds_eqb b mb then [] else fail 1 i 8) ++
+          (match run_query q b (st_obs s) with
+           | Some rows =>
+               if list_items_ok true limit (map result_of (st_sp s)) (map result_of_row rows) then [] else fail 2 i 9
+           | None => fail 2 i 9
            end))
   end.
 
